@@ -47,7 +47,7 @@ def run(chk, tier):
                 'K5: FnMocker::verify and teardown traverse all patterns / all methods to exhaustion with one error vector, the never-called '
                 'rule fires iff the summed counts are 0; all errors reach the panic text / report; the builder stores the documented '
                 '(minimum, exactness) pairs which move into the counter unchanged.')
-    for cfg in configs(tier, thorough=('std', 'nostd-spin')):
+    for cfg in configs(tier, thorough=('std', 'mocks', 'nostd-spin', 'nostd')):
         F = load(chk, cfg)
         counter_verify(chk, F, 'R03.1', cfg)
         fnmocker_verify(chk, F, 'R03.2', cfg)
